@@ -31,9 +31,9 @@ pub fn sim_error_violation(op: &str, e: &SimError) -> Violation {
 
 #[derive(Default)]
 pub struct Groups<const N: usize> {
-    pub g0: SubDeviceGroup<N, 4096>,
-    pub g1: SubDeviceGroup<N, 4096>,
-    pub g2: SubDeviceGroup<N, 4096>,
+    pub g0: SubDeviceGroup<N, 4096, crate::simlock::SimLock>,
+    pub g1: SubDeviceGroup<N, 4096, crate::simlock::SimLock>,
+    pub g2: SubDeviceGroup<N, 4096, crate::simlock::SimLock>,
 }
 
 pub fn expected_dc(flags: u16) -> DcSupport {
